@@ -5,9 +5,12 @@
    order parameter of model/CmpbOrder.v (the site list equals gen/MapRangeGen.v by a computed
    lemma); the theorems say the result is the same for all permutations. *)
 From Coq Require Import String List NArith Bool Permutation Sorted.
-From J5V.gen Require MapRangeGen SetExtGen.
-From J5V.model Require Import CmpbOrder.
-From J5V.proofs Require Import CmpbOrderProofs.
+From J5V.lib Require Import Outcome Strcase.
+From J5V.gen Require MapRangeGen SetExtGen StateGen.
+From J5V.model Require Import Desc J5sAst J5sWalk J5sConvert CmpbOrder CmpbInstance.
+From J5V.proofs Require Import CmpbOrderProofs CmpbComposeProofs CmpbStateProofs CmpbLinkTotalProofs.
+From J5V.model Require ProtoPrintFile.
+From J5V.proofs Require CmpbPrintBridgeProofs CmpbPrintBridgeExample ProtoPrintFileExample.
 Import ListNotations.
 Local Open Scope N_scope.
 
@@ -82,6 +85,122 @@ Theorem C14_link_cache_transparent :
 Proof. exact @link_file_spec. Qed.
 Print Assumptions C14_link_cache_transparent.
 
+(* ---- CompilePackage AS A WHOLE: load (package cache) composed with link (SearchResult.Linked cache); the link
+   phase finds files through findFileByPath: a local path among whatever packages are loaded ([owner] = packageForFile), any other
+   path through the dependency resolver ([is_local], [ext_file]: built-in files and the dependency set, by path) (lookup_in).
+   Same bundle, ANY listing / map-iteration orders, ANY fuels, ANY histories of earlier CompilePackage calls on the
+   PackageSet (both caches in play; fresh = empty history): two calls that return, return the same linked files
+   in the same order *)
+Theorem C14_compile_package_linked_deterministic :
+  forall (F D L : Type) (convert : env -> @srcfile F -> bytes -> D) (owner : bytes -> bytes) (is_local : bytes -> bool) (ext_file : bytes -> option D)
+         (deps_of : D -> list bytes) (link1 : D -> list L -> L) lf1 rd1 rf1 lf2 rd2 rf2,
+    (forall n l, Permutation (lf1 n l) l) -> (forall n l, Permutation (rd1 n l) l) -> (forall n l, Permutation (rf1 n l) l) ->
+    (forall n l, Permutation (lf2 n l) l) -> (forall n l, Permutation (rd2 n l) l) -> (forall n l, Permutation (rf2 n l) l) ->
+    forall b, valid b -> forall f1 l1 f2 l2 earlier1 earlier2 n r1 r2 s1 s2 o1 o2,
+      let h1 := compile_link_seq convert lf1 rd1 rf1 owner is_local ext_file deps_of link1 f1 l1 b [] [] earlier1 in
+      let h2 := compile_link_seq convert lf2 rd2 rf2 owner is_local ext_file deps_of link1 f2 l2 b [] [] earlier2 in
+      compile_and_link convert lf1 rd1 rf1 owner is_local ext_file deps_of link1 f1 l1 b (fst h1) (snd h1) n = Some (r1, s1, o1) ->
+      compile_and_link convert lf2 rd2 rf2 owner is_local ext_file deps_of link1 f2 l2 b (fst h2) (snd h2) n = Some (r2, s2, o2) ->
+      o1 = o2.
+Proof. exact @compile_package_linked_deterministic. Qed.
+Print Assumptions C14_compile_package_linked_deterministic.
+
+(* what one such call returns: the package's sorted file names, each with what linking it yields through the lookup
+   the BUNDLE determines (not the current state of the PackageSet), both cache invariants preserved *)
+Theorem C14_compile_and_link_spec :
+  forall (F D L : Type) (convert : env -> @srcfile F -> bytes -> D) (owner : bytes -> bytes) (is_local : bytes -> bool) (ext_file : bytes -> option D)
+         (deps_of : D -> list bytes) (link1 : D -> list L -> L) lf rd rf,
+    (forall n l, Permutation (lf n l) l) -> (forall n l, Permutation (rd n l) l) -> (forall n l, Permutation (rf n l) l) ->
+    forall b, valid b -> forall fuel lfuel pc lc n pc' lc' out, both_ok convert owner is_local ext_file deps_of link1 b pc lc ->
+      compile_and_link convert lf rd rf owner is_local ext_file deps_of link1 fuel lfuel b pc lc n = Some (pc', lc', out) ->
+      both_ok convert owner is_local ext_file deps_of link1 b pc' lc'
+      /\ map fst out = map fst (p_files (spec_pkg convert b n))
+      /\ exists f, spec_list (spec_lookup convert owner is_local ext_file b) deps_of link1 f (map fst (p_files (spec_pkg convert b n))) = Some (map snd out).
+Proof. exact @compile_and_link_spec. Qed.
+Print Assumptions C14_compile_and_link_spec.
+
+(* the link phase returns whenever the import relation between files is well founded and every import can be found
+   (more fuel than the rank; the Go code recurses along the same relation and reports a circular file import) *)
+Theorem C14_link_total :
+  forall (D L : Type) (lookup : bytes -> option D) (deps_of : D -> list bytes) (link1 : D -> list L -> L) (rank : bytes -> nat),
+    (forall n d, lookup n = Some d -> forall dep, In dep (deps_of d) -> lookup dep <> None /\ (rank dep < rank n)%nat) ->
+    forall fuel names c, (forall n, In n names -> lookup n <> None /\ (rank n < fuel)%nat) ->
+      exists c' ls, link_all lookup deps_of link1 fuel c names = Some (c', ls).
+Proof. exact @link_all_total. Qed.
+Print Assumptions C14_link_total.
+
+(* loading a package leaves the set of loaded packages closed under direct dependencies (it loads them first), grows
+   the cache and contains the package: the invariant that lets the link phase, which looks files up among the LOADED
+   packages only (findFileByPath), find every import *)
+Theorem C14_loaded_packages_closed :
+  forall (F D : Type) (convert : env -> @srcfile F -> bytes -> D) lf rd,
+    (forall n l, Permutation (lf n l) l) -> (forall n l, Permutation (rd n l) l) ->
+  forall b fuel c n c' p, cache_closed b c -> load convert lf rd fuel b c n = Some (c', p) ->
+    cache_closed b c' /\ grows c c' /\ present c' n.
+Proof. exact @load_closed. Qed.
+Print Assumptions C14_loaded_packages_closed.
+
+(* CompilePackage as a whole, TOTAL form: load totality composed with link totality through that invariant.  On a valid
+   bundle whose package dependencies are present and acyclic (rank), whose produced files are stored under the package
+   packageForFile answers (owner_ok) and import only produced files of their own package or of a direct dependency, without
+   an import cycle (imports_wf, frank): there is ONE list of linked files that EVERY call returns - any listing / map
+   orders, any fuels above the ranks, after any history of earlier CompilePackage calls on the PackageSet *)
+Theorem C14_compile_package_linked_total :
+  forall (F D L : Type) (convert : env -> @srcfile F -> bytes -> D) (owner : bytes -> bytes) (is_local : bytes -> bool) (ext_file : bytes -> option D)
+         (deps_of : D -> list bytes) (link1 : D -> list L -> L) b rank frank,
+    valid b -> well_founded_deps b rank -> owner_ok convert owner is_local b -> imports_wf convert owner is_local ext_file deps_of b frank ->
+    forall n, find_pkg n b <> None ->
+    exists out, forall lf rd rf,
+      (forall n l, Permutation (lf n l) l) -> (forall n l, Permutation (rd n l) l) -> (forall n l, Permutation (rf n l) l) ->
+      forall fuel lfuel earlier, (rank n < fuel)%nat ->
+        (forall o, In o (map fst (p_files (spec_pkg convert b n))) -> (frank o < lfuel)%nat) ->
+        let h := compile_link_seq convert lf rd rf owner is_local ext_file deps_of link1 fuel lfuel b [] [] earlier in
+        exists pc' lc', compile_and_link convert lf rd rf owner is_local ext_file deps_of link1 fuel lfuel b (fst h) (snd h) n = Some (pc', lc', out).
+Proof. exact @compile_package_linked_total. Qed.
+Print Assumptions C14_compile_package_linked_total.
+
+(* its hypotheses are satisfiable by a bundle with a cross-package import, a same-package import and an import of a file of the
+   dependency set that itself imports another one, and the call computes *)
+Example C14_example_linked_total :
+  valid ex_bundle /\ well_founded_deps ex_bundle ex_rank /\ owner_ok ex_conv ex_owner ex_is_local ex_bundle
+  /\ imports_wf ex_conv ex_owner ex_is_local ex_ext (fun d : list bytes => d) ex_bundle ex_frank
+  /\ exists pc lc, compile_and_link ex_conv (fun _ l => rev l) (fun _ l => rev l) (fun _ l => rev l) ex_owner ex_is_local ex_ext
+                                     (fun d => d) ex_link1 5%nat 6%nat ex_bundle [] [] [103] = Some (pc, lc, [([99], 8)]).
+Proof. exact (conj ex_valid (conj ex_wf (conj ex_owner_ok (conj ex_imports_wf ex_total_value)))). Qed.
+Print Assumptions C14_example_linked_total.
+
+(* ---- the conversion stage is not an opaque parameter: the skeleton instantiated with cmpa's Gallina model of
+   ConvertJ5File (model/J5sConvert.v cv_file over the AST of model/J5sAst.v, lib/Strcase.v for the names), which
+   is a function of the file's AST and of the resolver the skeleton hands it (own exports + direct dependencies'
+   exports).  Its distance to the Go converter is cmpa's tie (C02 / C13), not re-checked here *)
+Theorem C14_compile_deterministic_with_cmpa_converter :
+  forall (bd : J5sAst.bundle) rank, valid (of_bundle bd) -> well_founded_deps (of_bundle bd) rank ->
+  forall lf rd rf,
+    (forall n l, Permutation (lf n l) l) -> (forall n l, Permutation (rd n l) l) -> (forall n l, Permutation (rf n l) l) ->
+  forall fuel earlier n, find_pkg n (of_bundle bd) <> None -> (rank n < fuel)%nat ->
+    exists c, compile_package (cmpa_convert bd) lf rd rf fuel (of_bundle bd)
+                (compile_seq (cmpa_convert bd) lf rd rf fuel (of_bundle bd) [] earlier) n
+              = Some (c, p_files (spec_pkg (cmpa_convert bd) (of_bundle bd) n)).
+Proof. exact (fun bd => compile_total_deterministic (cmpa_convert bd) (of_bundle bd)). Qed.
+Print Assumptions C14_compile_deterministic_with_cmpa_converter.
+
+(* ---- process-level state: no package-level variable of the compile-path packages is written outside init *)
+Theorem C14_process_state_reviewed : state_vars_same_set = true.
+Proof. exact state_vars_agree. Qed.
+Print Assumptions C14_process_state_reviewed.
+Theorem C14_no_runtime_process_state : no_runtime_process_state = true.
+Proof. exact no_runtime_process_state_holds. Qed.
+Print Assumptions C14_no_runtime_process_state.
+
+(* ---- the shape of every unordered loop body, regenerated from the Go source, is the one its row was written for;
+   every key collection that is used as a sequence is followed by a sort *)
+Theorem C14_order_bodies_agree : order_bodies_same_set = true.
+Proof. exact order_bodies_agree. Qed.
+Print Assumptions C14_order_bodies_agree.
+Theorem C14_collected_keys_sorted : collected_keys_are_sorted = true.
+Proof. exact collected_keys_sorted. Qed.
+Print Assumptions C14_collected_keys_sorted.
+
 (* ---- the generated file's import list depends only on the SET of files passed to ensureImport *)
 Theorem C14_imports_order_irrelevant : forall c1 c2, (forall x, In x c1 <-> In x c2) -> ensure_all c1 = ensure_all c2.
 Proof. exact ensure_all_set_invariant. Qed.
@@ -123,6 +242,41 @@ Theorem C14_emitted_option_indexes_distinct :
     ["*descriptorpb.MessageOptions"; "*descriptorpb.ServiceOptions"; "*descriptorpb.MethodOptions"; "*descriptorpb.EnumOptions"]%string = true.
 Proof. exact emitted_option_indexes_distinct. Qed.
 Print Assumptions C14_emitted_option_indexes_distinct.
+
+(* the same on the `tool` family's model of the printer (model/ProtoPrintFile.v, tied to protoprint by C05): the
+   option lists are the only place where protobuf's Range order enters the printed text; what printSection lays
+   out (lay_sopts: Go's insertion sort under optionsByLocation.Less, then parseOption) and what printFieldStyle
+   lays out (lay_fopts: re-sorted by printed name) do not depend on the order the options arrive in, whenever
+   their sort keys (line, index, full name) are distinct *)
+Theorem C14_printer_model_options_order_free : forall o1 o2,
+  Permutation o1 o2 ->
+  (forall a b, In a o1 -> In b o1 -> CmpbPrintBridgeProofs.dopt_key a = CmpbPrintBridgeProofs.dopt_key b -> a = b) ->
+  ProtoPrintFile.lay_sopts o1 = ProtoPrintFile.lay_sopts o2 /\ ProtoPrintFile.lay_fopts o1 = ProtoPrintFile.lay_fopts o2.
+Proof.
+  exact (fun o1 o2 Hp Hd => conj (CmpbPrintBridgeProofs.lay_sopts_perm o1 o2 Hp Hd) (CmpbPrintBridgeProofs.lay_fopts_perm o1 o2 Hp Hd)).
+Qed.
+Print Assumptions C14_printer_model_options_order_free.
+
+(* ... and therefore the WHOLE printed file of tool's model: two descriptors that differ only in the order of their option
+   lists (CmpbPrintBridgeProofs.dfile_equiv: the options of messages, oneofs, fields, enums, enum values, services, methods
+   and extension fields at every nesting depth, each list permuted arbitrarily, sort keys distinct within a list; element
+   lists, imports, file options and the option VALUES unchanged) print the same tokens.  The entries of a map-valued option
+   are inside the value, which tool's model takes as given: their order is C14_print_map_entries, on this family's model *)
+Theorem C14_printer_model_range_order_free : forall st d1 d2,
+  CmpbPrintBridgeProofs.dfile_equiv d1 d2 -> ProtoPrintFile.print_file_tokens st d1 = ProtoPrintFile.print_file_tokens st d2.
+Proof. exact CmpbPrintBridgeProofs.print_file_tokens_range_order_free. Qed.
+Print Assumptions C14_printer_model_range_order_free.
+(* non-vacuity: tool's example descriptor and the one with the two options of field Foo.id in the other order *)
+Example C14_example_range_order_free :
+  ProtoPrintFileExample.ex_file <> CmpbPrintBridgeExample.ex_file_swapped
+  /\ CmpbPrintBridgeProofs.dfile_equiv ProtoPrintFileExample.ex_file CmpbPrintBridgeExample.ex_file_swapped
+  /\ forall st, ProtoPrintFile.print_file_tokens st ProtoPrintFileExample.ex_file
+                = ProtoPrintFile.print_file_tokens st CmpbPrintBridgeExample.ex_file_swapped.
+Proof.
+  exact (conj CmpbPrintBridgeExample.ex_swapped_differs
+              (conj CmpbPrintBridgeExample.ex_swapped_equiv CmpbPrintBridgeExample.ex_swapped_prints_the_same)).
+Qed.
+Print Assumptions C14_example_range_order_free.
 
 (* field and enum-value options are re-sorted by qualified name: independent of Range order *)
 Theorem C14_print_field_options : forall l1 l2,
@@ -178,3 +332,27 @@ Example C14_example_compile :
          (compile_seq conv (fun _ l => rev l) (fun _ l => rev l) (fun _ l => rev l) 5 b [] [[103]]) [102] = Some (c2, out)
     /\ length out = 3%nat.
 Proof. cbv zeta. eexists. eexists. eexists. split; [vm_compute; reflexivity|split; vm_compute; reflexivity]. Qed.
+
+(* the instantiated skeleton computes: two packages, a cross-package reference through an import, a reference to
+   another file of the same package, a service (sub-package file); reversed listings and map orders give the same
+   files, and the descriptors are exactly the ones cmpa's convert_package yields for the bundle *)
+Example C14_example_cmpa_converter :
+  let foo_v1 := [b "foo"; b "v1"] in let baz_v1 := [b "baz"; b "v1"] in
+  let bd : J5sAst.bundle :=
+    [ BJ (mkJfile foo_v1 (b "a") [mkImport (b "baz.v1") (b "baz")]
+           [EObject (b "Foo") (mkprops [Property (b "bar") false false (FObjRef (mkRef (b "baz") (b "Bar")));
+                                        Property (b "k") true false (FEnumRef (mkRef (b "baz") (b "Kind")));
+                                        Property (b "own") false false (FObjRef (mkRef [] (b "Other")))]) NNil]);
+      BJ (mkJfile foo_v1 (b "b") [] [EObject (b "Other") (mkprops [Property (b "x") false false (FScalar SString)]) NNil;
+                                     EService (J5sAst.mkService (b "Svc") None [])]);
+      BJ (mkJfile baz_v1 (b "types") [] [EObject (b "Bar") (mkprops [Property (b "x") false false (FScalar SString)]) NNil;
+                                         EEnum (J5sAst.mkEnum (b "Kind") [] [b "A"; b "B"])]) ] in
+  let idf := fun (_ : bytes) (l : list (@srcfile jfile)) => l in let idp := fun (_ : bytes) (l : list bytes) => l in
+  let revf := fun (_ : bytes) (l : list (@srcfile jfile)) => rev l in let revp := fun (_ : bytes) (l : list bytes) => rev l in
+  exists c1 c2 out ds,
+    compile_package (cmpa_convert bd) idf idp idp 5 (of_bundle bd) [] (b "foo.v1") = Some (c1, out)
+    /\ compile_package (cmpa_convert bd) revf revp revp 5 (of_bundle bd) [] (b "foo.v1") = Some (c2, out)
+    /\ convert_package to_snake to_camel to_screaming_snake bd (b "foo.v1") = Ok ds
+    /\ length out = 3%nat
+    /\ forallb (fun x => match snd x with Some d => existsb (dfile_eqb d) ds | None => false end) out = true.
+Proof. cbv zeta. eexists. eexists. eexists. eexists. repeat split; vm_compute; reflexivity. Qed.
